@@ -610,15 +610,17 @@ def run(rep, program: Program, tier: str) -> None:
     et = ExcTypes(program)
     rep.isolate(rule_r1, rep, program)
     rep.isolate(rule_r2, rep, program, et)
-    rep.isolate(rule_r3, rep, program)
-    rep.isolate(rule_r4, rep, program)
+    from . import samplersim
+
+    samplersim.superseded(rep, program, tier, [("R3", "output rows are written at sample_index + offset, after the transitions of the iteration")], "R8", rule_r3, rep, program)
+    samplersim.superseded(rep, program, tier, [("R4", "in-memory and memory-mapped storage agree; one file per array; one allocation per (trace function, key)")], "R8", rule_r4, rep, program)
     from . import c14
 
-    rep.isolate(c14.rule_r3, rep, program, prop=PROP, rule="R5")
+    samplersim.superseded(rep, program, tier, [("R5", "worker outputs are restored to chain-index order before collation")], "R8", c14.rule_r3, rep, program, prop=PROP, rule="R5")
     # the arrays are sized from the trace_warm_up option; the stagers must record / trace warm-up stages under exactly that option (shared with C16-R1)
     from . import c16
 
-    rep.isolate(c16.rule_record_flags, rep, program, prop=PROP, rule="R6")
+    samplersim.superseded(rep, program, tier, [("R6", "warm-up stages record statistics / traces iff trace_warm_up")], "R8", c16.rule_record_flags, rep, program, prop=PROP, rule="R6")
     # a traced quantity that is cached in the state (e.g. the Hamiltonian) is that of the row's state only if every update
     # of a state variable goes through assignment, which invalidates the cache (shared with C09-R7)
     from . import c09
